@@ -37,7 +37,7 @@ theorem lrun_append {σ : Type} (l : Listener σ) (a b : List (LEv σ)) : lrun l
 
 theorem inputD_live (ciph : Cipher) (now : U32) (l : Listener SessG) (d : Bytes) (a : String) :
     inputD ciph now l false d a = (listenerInput (world now) ciph l d a).l := by
-  unfold inputD; simp only [Bool.false_eq_true, if_false]
+  rw [inputD_eq]; simp only [Bool.false_eq_true, if_false]
 
 theorem step_l (ciph : Cipher) (honest : String → Bool) (s : Sys) (e : IEv) (hd : s.dead = false)
     (he : isListenerClose e = false) :
